@@ -226,7 +226,7 @@ func runWorker(id, tier string, i int, name string) *JobResult {
 	cmd := exec.Command(os.Args[0], "job", id, tier, strconv.Itoa(i))
 	logDir, _ := os.MkdirTemp("", "verif-race-")
 	defer os.RemoveAll(logDir)
-	cmd.Env = append(os.Environ(), "GOMAXPROCS=2", "GORACE=halt_on_error=0 exitcode=0 log_path="+logDir+"/race", "VERIF_RACE_LOG="+logDir+"/race")
+	cmd.Env = append(os.Environ(), "GOMAXPROCS=2", "GORACE=halt_on_error=0 exitcode=0 suppress_equal_stacks=0 suppress_equal_addresses=0 log_path="+logDir+"/race", "VERIF_RACE_LOG="+logDir+"/race")
 	var stderr limitedBuf
 	cmd.Stderr = &stderr
 	out, err := cmd.Output()
